@@ -58,12 +58,17 @@ PASSES = {
 }
 
 ASSUME = [
+    "an address string is a single token: xcm.h's Address Syntax gives every form as an unbroken token and none "
+    "contains blanks or line breaks, so the six ASCII white-space characters (space, \\t, \\n, \\v, \\f, \\r) anywhere "
+    "in the string - transport name, host, port, UX/UXF name - are must-reject for every parser entry point "
+    "(typed, compat, xcm_addr_parse_proto) and for xcm_addr_is_valid/is_supported; each of the six is offered at "
+    "the start, middle and end of every field and directly behind the prefix, for all eight transports",
     "the reference codec is three-valued: must-accept / must-reject / either; 'either' (no verdict on acceptance, "
     "but an accepted string must still yield the components its text denotes) covers what xcm.h's Address Syntax "
     "leaves open: leading zeros in ports and IPv4 octets, label-level DNS syntax (empty labels, hyphens at label "
     "edges, labels > 63, all-numeric names that are not a dotted quad), bytes outside letters/digits/'-'/'.' in a "
-    "DNS name other than blanks, control characters, brackets and ':' (e.g. '_', '\\\\', 8-bit), the empty and "
-    "non-printable UX names, upper-case transport names",
+    "DNS name other than blanks, control characters, brackets and ':' (e.g. '_', '\\\\', 8-bit), the empty UX name, "
+    "control characters other than white space and bytes >= 0x80 in UX/UXF names, upper-case transport names",
     "must-reject: empty/signed/blank-containing/non-decimal/>65535 port fields (incl. values that wrap an int), "
     "trailing junk, empty host, unbalanced brackets, ':' outside brackets, blanks or control characters anywhere in "
     "a host, DNS names > 253, UX/UXF names > 107 bytes, unknown transport name, missing separators",
